@@ -127,7 +127,8 @@ fn hexwrite_canon(img: &[u8]) -> String {
         let dir = scratch_dir();
         let br = BuildResult {
             code: img.to_vec(),
-            eeprom: img.to_vec(),
+            // a different image for the EEPROM writer: every byte xor 0x5a
+            eeprom: img.iter().map(|b| b ^ 0x5a).collect(),
             flash_size: 0,
             eeprom_size: 0,
             ram_size: 0,
@@ -149,11 +150,7 @@ fn hexwrite_canon(img: &[u8]) -> String {
             (Ok(()), Ok(())) => {
                 let c = std::fs::read(&pc).unwrap();
                 let e = std::fs::read(&pe).unwrap();
-                if c == e {
-                    format!("HEX {}", hex(&c))
-                } else {
-                    format!("HEXDIFF {} {}", hex(&c), hex(&e))
-                }
+                format!("HEX2 {} {}", hex(&c), hex(&e))
             }
             _ => "WERR".to_string(),
         };
